@@ -261,8 +261,22 @@ func c12Explore(src *choice.Src) *core.Result {
 	zipFile := filepath.Join(sb.root, "archive.zip")
 	os.WriteFile(zipFile, archive, 0o644)
 	target := filepath.Join(level, "target")
-	targetState := []string{"missing", "empty", "non-empty", "file", "parent-missing", "non-empty-unlistable"}[src.Weighted(6, 3, 2, 1, 1, 2)]
+	targetState := []string{"missing", "empty", "non-empty", "file", "parent-missing", "non-empty-unlistable", "non-empty-via-dotdot"}[src.Weighted(6, 3, 2, 1, 1, 2, 2)]
 	switch targetState {
+	case "non-empty-via-dotdot":
+		// The target is named through "x/..": <level>/<x>/../target, where <level>/target exists and is not
+		// empty and x does not exist (or is a link to a directory elsewhere). The operating system and a
+		// lexical cleaning of the path disagree about which directory that is.
+		real := filepath.Join(level, "target")
+		os.Mkdir(real, 0o755)
+		os.WriteFile(filepath.Join(real, "already-here.txt"), []byte("x"), 0o644)
+		if src.Bool(1, 2) {
+			elsewhere := filepath.Join(level, "elsewhere")
+			os.MkdirAll(filepath.Join(elsewhere, "sub"), 0o755)
+			os.Symlink(filepath.Join(elsewhere, "sub"), filepath.Join(level, "x"))
+		}
+		target = level + string(filepath.Separator) + "x" + string(filepath.Separator) + ".." + string(filepath.Separator) + "target"
+		res.Faults["target-named-through-dotdot"]++
 	case "non-empty-unlistable":
 		// The target exists and is not empty, but listing it fails (a directory without read permission;
 		// the simulator answers Unzip's listing itself because the checks run as root, whom permission
@@ -308,6 +322,9 @@ func c12Explore(src *choice.Src) *core.Result {
 	except := target
 	if targetState == "parent-missing" {
 		except = filepath.Join(level, "not")
+	}
+	if targetState == "non-empty-via-dotdot" {
+		except = filepath.Join(level, "no-such-entry") // nothing may change at all: every reading of the path leads to a non-empty or missing place
 	}
 	if inPlace {
 		os.WriteFile(zipFile, intact, 0o644)
@@ -398,7 +415,7 @@ func c12Explore(src *choice.Src) *core.Result {
 		return c12Done(res, mod.m.String(), source, targetState, entries, archive)
 	}
 	switch targetState {
-	case "non-empty", "file", "non-empty-unlistable":
+	case "non-empty", "file", "non-empty-unlistable", "non-empty-via-dotdot":
 		if uerr == nil {
 			res.Fail("C12", "target-must-be-empty", "extraction into a non-empty target or a file succeeded", "target state %s", targetState)
 		}
